@@ -623,24 +623,36 @@ def run_C18(res):
     res.coverage["rule"] = ("random operation sequences (add/poll/clear/resize/hashfull/len) on Hashtable<u64> and Hashtable<TTEntry>, sizes 0..3 MB, "
                             "keys aliasing modulo the slot count; oracle = slot map in Python; non-trivial = sequence contains an aliasing overwrite or a resize")
     reqs, plans = [], []
+    esz_tte = int(run_hx(["ttsize"])[0])
     for i in range(nseq):
         typ = "u64" if i % 2 == 0 else "tte"
-        esz = 8 if typ == "u64" else None
+        esz = 8 if typ == "u64" else esz_tte
         mb = rnd.choice([0, 1, 1, 1, 2, 3])
+        n = mb * 1024 * 1024 // esz
         ops = []
         keys = [rnd.getrandbits(64) for _ in range(6)] + [rnd.randrange(2000) for _ in range(6)]
+
+        def pick_key():
+            # a third of the keys land in the LAST few thousand slots of the current table (block-wise clear / resize slips live there)
+            if n > 0 and rnd.random() < 0.35:
+                return n - 1 - rnd.choice([0, 1, 2, rnd.randrange(0, min(n, 5000))]) + n * rnd.choice([0, 0, 1, 7])
+            return (rnd.choice(keys) + rnd.choice([0, 0, 131072, 43690, 87381, 349525, 393216, 262144])) % (1 << 64)
+        recent = []
         for _ in range(rnd.randrange(5, 60)):
             c = rnd.random()
             if c < 0.4:
-                k = rnd.choice(keys) + rnd.choice([0, 0, 131072, 43690, 87381, 349525, 393216, 262144])
-                ops.append(f"a:{k % (1 << 64)}:{rnd.randrange(1, 1 << 40)}")
+                k = pick_key()
+                recent.append(k)
+                ops.append(f"a:{k}:{rnd.randrange(1, 1 << 40)}")
             elif c < 0.8:
-                k = rnd.choice(keys) + rnd.choice([0, 0, 131072, 43690, 87381, 349525, 393216, 262144])
-                ops.append(f"p:{k % (1 << 64)}")
-            elif c < 0.85:
+                k = rnd.choice(recent) if recent and rnd.random() < 0.6 else pick_key()
+                ops.append(f"p:{k}")
+            elif c < 0.86:
                 ops.append("c")
             elif c < 0.92:
-                ops.append(f"r:{rnd.choice([0, 1, 2, 3])}")
+                m = rnd.choice([0, 1, 2, 3])
+                n = m * 1024 * 1024 // esz
+                ops.append(f"r:{m}")
             elif c < 0.97:
                 ops.append("h")
             else:
